@@ -9,7 +9,7 @@ from harness.props import sched_common as sc
 ID = 'C02'
 PROPS_FILE = 'Props/Props_C02.v'
 EXTRA_TARGETS = ['Sched/Case.vo', 'Props/Props_Glue.vo']   # Glue: WFin holds of every reachable graph state
-CONST_PARTS = ('sched',)
+CONST_PARTS = ('sched', 'srcpass')
 FAIL = sc.BITS['c02']
 MISMATCH = sc.BITS['model_oracle'] | sc.BITS['dates']
 
